@@ -873,7 +873,8 @@ func C34ComboValues(valid, rem int64, thorough bool) []int64 {
 //	combo        broker-written segment, one batch of two records + 4 pad bytes: every combination of
 //	             C34ComboValues for record length, key length, value length, header count, header key length,
 //	             header value length of record 0, x record count x batch length alphabets
-//	index-*      prefixes of a valid index; magic x version x entry count x rows present; interval values
+//	index-*      prefixes of a valid index; magic x version x entry count {0..4} x rows present {0..3};
+//	             magic x version x entry count {-1, 2^16, 2^20, 2^31-1, -2^31} with 2 rows; interval values
 func C34Cases(thorough bool, want func(idx int) bool, f func(c *FuzzCase) bool) {
 	idx := 0
 	stop := false
@@ -959,10 +960,15 @@ func C34Cases(thorough bool, want func(idx int) bool, f func(c *FuzzCase) bool) 
 					if !t[ti].varint {
 						continue
 					}
+					// quick: the values whose unchecked use allocates >= 1 GiB or cannot be allocated at all
+					// (each costs a worker restart) are applied to the one-record seed only
 					heavy := thorough || (si == 0)
 					rem := remAfter(t, ti)
 					for _, v := range C34VarintValues(rem, heavy) {
 						if ti != 0 && v == t[ti].v {
+							continue
+						}
+						if !heavy && v == 1<<40 {
 							continue
 						}
 						for _, fix := range []bool{true, false} {
@@ -1038,9 +1044,7 @@ func C34Cases(thorough bool, want func(idx int) bool, f func(c *FuzzCase) bool) 
 			return
 		}
 	}
-	counts := []int64{0, 1, 2, 3, 4, -1, 1 << 16, 1 << 20, 1<<31 - 1, -(1 << 31)}
-	Product([]int{2, 3, 4, len(counts)}, func(ix []int) bool {
-		magicOK, ver, rows, cnt := ix[0] == 0, []int64{1, 0, 2}[ix[1]], ix[2], counts[ix[3]]
+	idxCase := func(magicOK bool, ver int64, rows int, cnt int64) bool {
 		return emit("index", "index-subst", "index-entry-count", func() (string, []byte, [][]byte) {
 			b := RefIndex(2, idxRows[:rows])
 			if !magicOK {
@@ -1050,6 +1054,18 @@ func C34Cases(thorough bool, want func(idx int) bool, f func(c *FuzzCase) bool) 
 			b = c34Patch(b, 6, 4, cnt)
 			return fmt.Sprintf("index magicOK=%v version=%d entryCount=%d rowsPresent=%d", magicOK, ver, cnt, rows), b, nil
 		})
+	}
+	vers := []int64{1, 0, 2}
+	smallCounts := []int64{0, 1, 2, 3, 4}
+	Product([]int{2, len(vers), 4, len(smallCounts)}, func(ix []int) bool {
+		return idxCase(ix[0] == 0, vers[ix[1]], ix[2], smallCounts[ix[3]])
+	})
+	if stop {
+		return
+	}
+	bigCounts := []int64{-1, 1 << 16, 1 << 20, 1<<31 - 1, -(1 << 31)}
+	Product([]int{2, len(vers), len(bigCounts)}, func(ix []int) bool {
+		return idxCase(ix[0] == 0, vers[ix[1]], 2, bigCounts[ix[2]])
 	})
 	if stop {
 		return
